@@ -55,6 +55,13 @@ func aliasRun(c *Ctx, key string, calls []aliasCall) {
 // aliasRun. concRun makes the same judged calls from 8 goroutines at once, each goroutine on its own values, and
 // compares every result with the expectation computed beforehand (independently of the library). What is judged is
 // deterministic (results only); a job whose sequential result already differs is left to the sequential oracles.
+func errSuffix(err error) string {
+	if err != nil {
+		return " " + err.Error()
+	}
+	return ""
+}
+
 type concJob struct {
 	name, want string
 	f          func() string
@@ -341,6 +348,45 @@ func init() {
 				concRun(c, "C04.concurrent", jobs, 60)
 			}()
 		}
+	})
+	// the parsers and New of package size from 8 goroutines (a scratch buffer shared between calls shows here)
+	wrap("C08", func(c *Ctx) {
+		defer szSetMarshalCfg(0)()
+		var jobs []concJob
+		for _, v := range concSizes() {
+			s := size.Size(v)
+			want := strconv.FormatUint(v, 10)
+			dec, unit := szShortenWant(v)
+			n, _ := strconv.ParseUint(dec, 10, 64)
+			t1, t2, t3 := dec+unit, "  "+szGroup3(dec, "_")+" "+unit+" ", szGroup3(want, "\u00a0")
+			jobs = append(jobs,
+				concJob{fmt.Sprintf("DefaultParser(%q)", t1), want, func() string { p, err := size.DefaultParser(t1, 0); return fmt.Sprintf("%d", uint64(p)) + errSuffix(err) }},
+				concJob{fmt.Sprintf("DefaultParser([]byte %q)", t2), want, func() string { p, err := size.DefaultParser([]byte(t2), 0); return fmt.Sprintf("%d", uint64(p)) + errSuffix(err) }},
+				concJob{fmt.Sprintf("UnmarshalText(%q)", t3), want, func() string { var p size.Size; err := p.UnmarshalText([]byte(t3)); return fmt.Sprintf("%d", uint64(p)) + errSuffix(err) }},
+				concJob{fmt.Sprintf("New(%d, %q)", n, unit), want, func() string { p, err := size.New(n, unit); return fmt.Sprintf("%d", uint64(p)) + errSuffix(err) }},
+				concJob{fmt.Sprintf("Bytes[uint64](%d)", v), want + " true", func() string { b, ok := size.Bytes[uint64](s); return fmt.Sprintf("%d %v", b, ok) }})
+		}
+		concRun(c, "C08.concurrent", jobs, 100)
+	})
+	wrap("C12", func(c *Ctx) {
+		defer szSetMarshalCfg(0)()
+		var jobs []concJob
+		for i, v := range concSizes() {
+			want := strconv.FormatUint(v, 10)
+			dec, unit := szShortenWant(v)
+			d1 := `{"unit":"` + unit + `","x":[1,{"value":9,"unit":"EiB"}],"VALUE":` + dec + `}`
+			d2 := ` {"value" : ` + dec + ` , "k` + strconv.Itoa(i) + `" : "` + unit + `" , "Unit" : "` + unit + `"} `
+			d3, d4 := `"`+szGroup3(dec, " ")+" "+unit+`"`, want
+			for _, d := range []string{d1, d2, d3, d4} {
+				d := d
+				jobs = append(jobs, concJob{fmt.Sprintf("DefaultParser(%q, 6)", d), want, func() string {
+					p, err := size.DefaultParser(d, size.RuleEnableJSONStringForm|size.RuleEnableJSONObjectForm)
+					return fmt.Sprintf("%d", uint64(p)) + errSuffix(err)
+				}})
+			}
+			jobs = append(jobs, concJob{fmt.Sprintf("UnmarshalJSON(%q)", d1), want, func() string { var p size.Size; err := p.UnmarshalJSON([]byte(d1)); return fmt.Sprintf("%d", uint64(p)) + errSuffix(err) }})
+		}
+		concRun(c, "C12.concurrent", jobs, 100)
 	})
 	wrap("C03", func(c *Ctx) {
 		var jobs []concJob
